@@ -166,12 +166,11 @@ impl VouchedTime {
         let local_time_ms = local_time_ms as u64;
         // if local_time - base_time in [-MAX_BACKWARD_DISCREPANCY_MS, MAX_FORWARD_DISCREPANCY_MS]
         //
-        // We subtract base_time_ns, and add MAX_BACKWARD_DISCREPANCY_MS.  This maps the
-        // allowed range to `[0, MAX_BACKWARD_DISCREPANCY_MS + MAX_FORWARD_DISCREPANCY_MS]`.
-        if local_time_ms
-            .wrapping_sub(base_time_ms)
-            .wrapping_add(MAX_BACKWARD_DISCREPANCY_MS)
-            <= MAX_BACKWARD_DISCREPANCY_MS + MAX_FORWARD_DISCREPANCY_MS
+        // Compare in i128: both values are arbitrary `u64`s, so the
+        // difference must not be allowed to wrap around.
+        let discrepancy_ms = (local_time_ms as i128) - (base_time_ms as i128);
+        if (-(MAX_BACKWARD_DISCREPANCY_MS as i128)..=(MAX_FORWARD_DISCREPANCY_MS as i128))
+            .contains(&discrepancy_ms)
         {
             return Ok(());
         }
